@@ -8,6 +8,7 @@
 #include "pv_container.hpp"
 #include "pv_algebra.hpp"
 #include <boost/mpi.hpp>
+#include <fstream>
 
 static json g_current;
 static void on_terminate() {
@@ -20,8 +21,18 @@ int main(int argc, char** argv) {
     boost::mpi::environment env(argc, argv);
     std::set_terminate(on_terminate);
     pv::QuietCout quiet;
+    // several ranks (mpiexec): all ranks read the same scenarios from the file PV_SCEN and run them in lockstep (the library's
+    // collective steps match up); rank r writes its events to PV_OUT.r
+    boost::mpi::communicator world;
+    std::ifstream scen_file;
+    if (const char* sf = getenv("PV_SCEN")) scen_file.open(sf);
+    std::istream& in = scen_file.is_open() ? static_cast<std::istream&>(scen_file) : std::cin;
+    if (const char* of = getenv("PV_OUT")) {
+        std::string fn = std::string(of) + "." + std::to_string(world.rank());
+        if (FILE* f = fopen(fn.c_str(), "w")) pv::out_file() = f;
+    }
     std::string line;
-    while (std::getline(std::cin, line)) {
+    while (std::getline(in, line)) {
         if (line.empty()) continue;
         json sc = json::parse(line);
         g_current = sc;
